@@ -43,6 +43,7 @@ stored in `s` under header slot `slot` on pages ≥ 2 and the other slot loses t
   any number of commits), and the previous state is still stored under the old slot;
 * `damaged_new_header_shows_previous_state`: after a completed commit, any damage confined to the new header
   page that makes it fail verification gives back exactly the previous state (C12's fallback, in bytes);
+* `every_history_of_commits_stays_committed`: induction over any number of such commits from any committed file;
 * `fresh_file_is_committed`: the premises are satisfiable (a four-page file as `init_file` writes it).
 What these do NOT cover: that the real commit writes only pages the previous state does not own is the
 hypothesis `CommitOK.sep` — Layer A proves it of the allocator model (`reader_pages_never_written`, C03), and
@@ -186,6 +187,21 @@ theorem damaged_new_header_shows_previous_state (pagesize : Nat)
   refine crash_shows_old Gen.layout Gen.hashOrder pagesize (Layout.WF.of _ hE) (Layout.WFM.of _ hL) hrec hhdr ov _ d
     slot hslot old h3 k ?_ fuel hf
   rw [hbad]; trivial
+
+/-- ALONG EVERY HISTORY: from any committed file (e.g. the fresh one), after any number of completed copy-on-write
+commits — each an arbitrary set of data writes that keeps the bytes the current state owns and leaves the next
+state's pages stored, followed by the header write into the other slot — the file is again committed and opens as
+exactly the state of the last commit.  So `any_partial_commit_shows_previous_state` applies at every point of every
+history: whatever part of the next commit is in the file, `open` shows the last committed state -/
+theorem every_history_of_commits_stays_committed (pagesize : Nat)
+    (hrec : Gen.layout.pgPtr + Gen.layout.metaSize ≤ pagesize) {s : Src} {slot : Nat} {st : Opened} {ov : Nat → Nat}
+    {s' : Src} {slot' : Nat} {st' : Opened} {ov' : Nat → Nat} (hslot : slot = 0 ∨ slot = 1)
+    (h0 : CommittedFile pagesize ov s slot st)
+    (hc : Commits Gen.layout Gen.hashOrder pagesize s slot st ov s' slot' st' ov') :
+    (slot' = 0 ∨ slot' = 1) ∧ CommittedFile pagesize ov' s' slot' st' ∧
+    ∀ fuel, st'.view.weight ≤ fuel → openFile Gen.layout Gen.hashOrder pagesize fuel s' = some st' :=
+  commits_stay_committed Gen.layout Gen.hashOrder pagesize layout_fit_for_commit.1 layout_fit_for_commit.2 hrec
+    (Nat.le_trans (by decide) hrec) hslot h0 hc
 
 /-! ### the premises are satisfiable: a fresh four-page file -/
 
